@@ -187,4 +187,24 @@ var c11Benign = []core.Mutant{
 	{Name: "updates-through-pointer-and-method-value", File: "annotate/internal/core/compute.go",
 		Find:    "\t\t\t\t\tfor _, cl := range locs {\n\t\t\t\t\t\tu := child[k].Update()\n\t\t\t\t\t\tu.Index = cl.Index\n\t\t\t\t\t\tupdates = append(updates, u)\n\t\t\t\t\t}\n",
 		Replace: "\t\t\t\t\temit := func(dst *osm.Updates, build func() osm.Update) {\n\t\t\t\t\t\tdefer func() {}()\n\t\t\t\t\t\tfor i := range locs {\n\t\t\t\t\t\t\tu := build()\n\t\t\t\t\t\t\tu.Index = locs[i].Index\n\t\t\t\t\t\t\t*dst = append(*dst, u)\n\t\t\t\t\t\t}\n\t\t\t\t\t}\n\t\t\t\t\temit(&updates, child[k].Update)\n"},
+
+	// ---- round 8: reversal flag in a later pass over the built list, De Morgan on the filter guard, an option refusing negative values
+	{Name: "reverse-in-second-pass", File: "annotate/datasource.go",
+		Find:    "\t\tif i != 0 {\n\t\t\tc.ReverseOfPrevious = IsReverse(w, ways[i-1])\n\t\t}\n\n\t\tlist[i] = c\n\t}\n\n\treturn list\n",
+		Replace: "\t\tlist[i] = c\n\t}\n\n\tfor i := 1; i < len(list); i++ {\n\t\tlist[i].ReverseOfPrevious = IsReverse(ways[i], ways[i-1])\n\t}\n\n\treturn list\n"},
+	{Name: "reverse-in-second-pass-range-continue", File: "annotate/datasource.go",
+		Find:    "\t\tif i != 0 {\n\t\t\tc.ReverseOfPrevious = IsReverse(w, ways[i-1])\n\t\t}\n\n\t\tlist[i] = c\n\t}\n\n\treturn list\n",
+		Replace: "\t\tlist[i] = c\n\t}\n\n\tfor i := range list {\n\t\tif i == 0 {\n\t\t\tcontinue\n\t\t}\n\t\tprev, cur := ways[i-1], ways[i]\n\t\tlist[i].ReverseOfPrevious = IsReverse(prev, cur)\n\t}\n\n\treturn list\n"},
+	{Name: "filter-guard-demorgan", File: "annotate/internal/core/compute.go",
+		Find:    "\t\t\tif annotated[j] && filter != nil && !filter(fid) {\n",
+		Replace: "\t\t\tif !(!annotated[j] || filter == nil || filter(fid)) {\n"},
+	{Name: "threshold-refuses-negative", File: "annotate/options.go",
+		Find:    "\t\to.Threshold = t\n\t\treturn nil\n",
+		Replace: "\t\tif t < 0 {\n\t\t\treturn nil\n\t\t}\n\n\t\to.Threshold = t\n\t\treturn nil\n"},
+
+	// ---- round 8: labelled `for {}` + switch window, result struct with a named result, method on a captured-variables struct writing
+	// through a pointer field, callback iterator whose bool result means "keep going"
+	{Name: "window-pipeline-struct-emitter-each", File: c11fCompute,
+		Find:    "\t\t\t// nextVersionIndex figures out what version of this child\n\t\t\t// is present in the next parent version\n\t\t\tnextVersion := nextVersionIndex(c, child, nextParent, opts)\n\n\t\t\tstart := 0\n\t\t\tif c != nil {\n\t\t\t\tstart = c.VersionIndex + 1\n\t\t\t} else {\n\t\t\t\t// current child is not defined, is next child\n\t\t\t\tnext := child.VersionBefore(timeThresholdParent(parent, 0))\n\t\t\t\tif next == nil {\n\t\t\t\t\tstart = 0\n\t\t\t\t} else {\n\t\t\t\t\tstart = next.VersionIndex + 1\n\t\t\t\t}\n\t\t\t}\n\n\t\t\tvar updates osm.Updates\n\t\t\tfor k := start; k < nextVersion; k++ {\n\t\t\t\tif child[k].Visible {\n\t\t\t\t\t// It's possible for this child to be present at multiple locations in the parent\n\t\t\t\t\tfor _, cl := range locs {\n\t\t\t\t\t\tu := child[k].Update()\n\t\t\t\t\t\tu.Index = cl.Index\n\t\t\t\t\t\tupdates = append(updates, u)\n\t\t\t\t\t}\n\t\t\t\t} else {\n\t\t\t\t\t// A child has become not-visible between parent version.\n\t\t\t\t\t// This is a data inconsistency that can happen in old data\n\t\t\t\t\t// i.e. pre element versioning.\n\t\t\t\t\t//\n\t\t\t\t\t// see node 321452894, changed 7 times in\n\t\t\t\t\t// the same changeset, version 5 was a delete. (also node 65172196)\n\t\t\t\t\tif !opts.IgnoreInconsistency {\n\t\t\t\t\t\treturn nil, fmt.Errorf(\"%v: %v: child deleted between parent versions\",\n\t\t\t\t\t\t\tparent.ID(), fid)\n\t\t\t\t\t}\n\t\t\t\t}\n\t\t\t}\n\n\t\t\t// we have what we need for this parent version.\n\t\t\tresults[parentIndex] = append(results[parentIndex], updates...)\n\t\t}\n\t}\n\n\tfor _, r := range results {\n\t\tr.SortByIndex()\n\t}\n\n\treturn results, nil\n}\n\n",
+		Replace: "\t\t\twin := windowOf(c, child, parent, nextParent, opts)\n\n\t\t\tvar updates osm.Updates\n\t\t\tem := emitter{into: &updates, locs: locs}\n\t\t\tk := win.from\n\t\twindow:\n\t\t\tfor {\n\t\t\t\tswitch {\n\t\t\t\tcase k >= win.to:\n\t\t\t\t\tbreak window\n\t\t\t\tcase child[k].Visible:\n\t\t\t\t\tem.emit(child[k])\n\t\t\t\tcase !opts.IgnoreInconsistency:\n\t\t\t\t\treturn nil, fmt.Errorf(\"%v: %v: child deleted between parent versions\",\n\t\t\t\t\t\tparent.ID(), fid)\n\t\t\t\t}\n\t\t\t\tk++\n\t\t\t}\n\n\t\t\t// we have what we need for this parent version.\n\t\t\tresults[parentIndex] = append(results[parentIndex], updates...)\n\t\t}\n\t}\n\n\tfor _, r := range results {\n\t\tr.SortByIndex()\n\t}\n\n\treturn results, nil\n}\n\n// span is the half open range of child versions that are minor versions of a parent.\ntype span struct{ from, to int }\n\nfunc windowOf(c *shared.Child, child ChildList, parent, nextParent Parent, opts *Options) (w span) {\n\tw.to = nextVersionIndex(c, child, nextParent, opts)\n\tif c == nil {\n\t\tc = child.VersionBefore(timeThresholdParent(parent, 0))\n\t}\n\tif c != nil {\n\t\tw.from = c.VersionIndex + 1\n\t}\n\treturn\n}\n\n// emitter appends one update per location.\ntype emitter struct {\n\tinto *osm.Updates\n\tlocs childLocs\n}\n\nfunc (e *emitter) emit(c *shared.Child) {\n\te.locs.each(func(cl childLoc) bool {\n\t\tu := c.Update()\n\t\tu.Index = cl.Index\n\t\t*e.into = append(*e.into, u)\n\t\treturn true\n\t})\n}\n\n// each calls f for every location until it returns false.\nfunc (locs childLocs) each(f func(childLoc) bool) {\n\tfor _, cl := range locs {\n\t\tif !f(cl) {\n\t\t\treturn\n\t\t}\n\t}\n}\n\n"},
 }
